@@ -2,7 +2,7 @@
 import os
 
 from . import core
-from .rules import stdio, cert, mark, exact, optstore, inval, idx, atomic, own, tokens, idxclass, copy, pair, structfree, buf, div, counter, sentinel, appendinit, verdict, basismap, zerotol, escape, lenclass, djsym, ndet, useb4check, norms, opencheck, shell, esolver, errlost, rescan, certdep, neverset, fmt, defaults, scratch, fullscan, slotleak, floatidx, sensemap, trunc, vtypezero, allockind, intdiv, strscan, localfield, rawidx, argcap, staleptr, condalloc, lpstate, vstattype, alphabet, outleak, fieldleak, lenm1, basisdim, dupmark, rowcopy, normlen, logonly, decacc, nzcount, infmap, lognofail, outunset, dupentry, digitseen, signedidx, strcap, nulterm, finite, nullret, pcheck, probstat, dzfresh, kwtable
+from .rules import stdio, cert, mark, exact, optstore, inval, idx, atomic, own, tokens, idxclass, copy, pair, structfree, buf, div, counter, sentinel, appendinit, verdict, basismap, zerotol, escape, lenclass, djsym, ndet, useb4check, norms, opencheck, shell, esolver, errlost, rescan, certdep, neverset, fmt, defaults, scratch, fullscan, slotleak, floatidx, sensemap, trunc, vtypezero, allockind, intdiv, strscan, localfield, rawidx, argcap, staleptr, condalloc, lpstate, vstattype, alphabet, outleak, fieldleak, lenm1, basisdim, dupmark, rowcopy, normlen, logonly, decacc, nzcount, infmap, lognofail, outunset, dupentry, digitseen, signedidx, strcap, nulterm, finite, nullret, pcheck, probstat, dzfresh, kwtable, headguard
 from .effects import Effects
 
 FIX = os.path.join(os.path.dirname(os.path.abspath(__file__)), "fixtures")
@@ -290,7 +290,7 @@ PROPS = {
     "C07": {
         "rules": [lambda prog, tier: idx.run(prog), lambda prog, tier: atomic.run(prog), lambda prog, tier: shell.run(prog, shared_eff(prog)),
                   lambda prog, tier: lpstate.run(prog),
-                  lambda prog, tier: alphabet.run(prog, shared_eff(prog)), lambda prog, tier: basisdim.run(prog), lambda prog, tier: dupmark.run(prog), lambda prog, tier: logonly.run(prog), lambda prog, tier: lognofail.run(prog), lambda prog, tier: outunset.run(prog), lambda prog, tier: alphabet.run_narrow(prog), lambda prog, tier: dupentry.run(prog), lambda prog, tier: own.run_loadkeep(prog), lambda prog, tier: own.run_basiscard(prog, shared_eff(prog)), lambda prog, tier: pcheck.run(prog),
+                  lambda prog, tier: alphabet.run(prog, shared_eff(prog)), lambda prog, tier: basisdim.run(prog), lambda prog, tier: dupmark.run(prog), lambda prog, tier: logonly.run(prog), lambda prog, tier: lognofail.run(prog), lambda prog, tier: outunset.run(prog), lambda prog, tier: alphabet.run_narrow(prog), lambda prog, tier: dupentry.run(prog), lambda prog, tier: own.run_loadkeep(prog), lambda prog, tier: own.run_basiscard(prog, shared_eff(prog)), lambda prog, tier: pcheck.run(prog), lambda prog, tier: headguard.run(prog),
                   lambda prog, tier: errlost.run(prog, scope_funcs=set(prog.reachable(sorted(f.key for f, _ in inval.api_functions(prog)))), floor=150)],
         "technique": "interprocedural taint of API index/selector arguments + path-sensitive must-analysis of range-guard facts "
                      "(right dimension, right strictness) on clang::CFG with callee preconditions propagated to the API boundary and "
@@ -319,7 +319,7 @@ PROPS = {
                   lambda prog, tier: _only(inval.run_fok(prog), "basis installed"),
                   lambda prog, tier: idxclass.run(prog, scope_units=("lib_mpq.c", "qsopt_mpq.c")),
                   lambda prog, tier: fullscan.run(prog, ["mpq_ILLlib_writebasis"], ("lib_mpq.c",), floor=2),
-                  lambda prog, tier: trunc.run(prog), lambda prog, tier: inval.run_skipgate(prog), lambda prog, tier: normlen.run(prog)],
+                  lambda prog, tier: trunc.run(prog), lambda prog, tier: inval.run_skipgate(prog), lambda prog, tier: normlen.run(prog), lambda prog, tier: headguard.run(prog)],
         "technique": "who-may-write ownership rule over interprocedural write-effect summaries; table agreement of type-resolved string "
                      "literals (writer format literals vs reader strcmp operands / section tables); must-follow dataflow for factorok",
         "explanation": "Decides three structural clauses of C14: (R-OWN) no public function outside the frozen owner table may write or "
